@@ -354,3 +354,22 @@ def C19(tier):
 
 
 REG["C19"] = C19
+
+
+def C15(tier):
+    q = tier == "quick"
+    sh = shapes(3, 3) if q else shapes(4, 4)
+    cyc = [s for s in shapes(3, 3, selfloops=False, connected=True) if not __import__("vlib.driver").driver.is_acyclic(s, 1 + max(max(e) for e in s))]
+    B = ("two consecutive calls, no monitor; every store / map update / in-place append / RNG step whose target is a package-level variable or an object "
+         "allocated by a package initialiser is a query; a sat answer is confirmed natively by concurrent calls under the race detector")
+    obs = [layout_ob("no-shared-state-writes", "Harness_E_C15", sh, {"P1": [0, 1], "P2": [0, 1], "P4": [4, 1, 5]}, consts={"P5": 2, "SZ": 5, "NSFIX": 10, "LSFIX": 20},
+                     bounds="canonical edge lists x {greedy,dfs} x {NS,LP} x {SinkColoring,VAlign,PackRight}; " + B),
+           layout_ob("no-shared-state-writes-random", "Harness_E_C15", cyc, {"P2": [0, 1]}, consts={"P1": 2, "P4": 1, "P5": 1, "SZ": 5, "NSFIX": 10, "LSFIX": 20},
+                     bounds="cyclic edge lists N<=3 M<=3 x greedy with random picks (the RNG step is part of the write set)", enctimeout=100),
+           layout_ob("no-shared-state-writes-more", "Harness_E_C15", shapes(3, 3), {"P4": [2, 3], "P5": [0, 1, 3], "BK": [-1, 2]},
+                     consts={"P1": 0, "P2": 0, "SZ": 5, "INTSZ": 1, "NSFIX": 10, "LSFIX": 20}, loop=192,
+                     bounds="N<=3 M<=3 x {B&K, NS positioner} x {none,straight,ortho}, concrete sizes")]
+    return dict(obligations=obs, level="model_checking")
+
+
+REG["C15"] = C15
